@@ -47,6 +47,15 @@ class FrameEval:
                 v = self.fv.value_of_def(d, nm)
                 if v is None:
                     continue
+                if isinstance(v, ast.List) and not v.elts:
+                    # a list filled by append: the frame of what is appended
+                    for c_ in self.fv.calls():
+                        if isinstance(c_.func, ast.Attribute) and c_.func.attr == "append" and U(c_.func.value) == nm and len(c_.args) == 1:
+                            nd_ = self.fv.node_of(c_)
+                            fa = self.expr(c_.args[0], nd_) if nd_ is not None else None
+                            if fa is not None:
+                                res = fa if res in (None, fa) else "mixed"
+                    continue
                 f = self.expr(v, d)
                 if f is None:
                     continue
@@ -92,6 +101,25 @@ class FrameEval:
                 if a == INDEX and isinstance(b, ast.Constant) and b.value == 0.5 and isinstance(n.op, ast.Add):
                     return CELL
             return l or r
+        if isinstance(n, ast.BinOp) and isinstance(n.op, (ast.FloorDiv, ast.Mod)):
+            l = self.expr(n.left, node)
+            if l in (CELL, INDEX):
+                # a coordinate rounded down to an integer: the mid-point of a cluster with an odd extent sits between two
+                # integers, so the position is biased by half a cell
+                self.rounded = getattr(self, "rounded", []) + [n]
+                return l
+            return None
+        if isinstance(n, ast.BinOp) and isinstance(n.op, (ast.Div, ast.Mult)):
+            l, r = self.expr(n.left, node), self.expr(n.right, node)
+            if (l in (CELL, INDEX)) != (r in (CELL, INDEX)) and isinstance(n.right if l else n.left, ast.Constant):
+                return l or r  # a coordinate scaled by a pure number (mean of two boundaries)
+            return None
+        if isinstance(n, ast.Subscript) and U(n.value) in ("np.c_", "np.r_", "numpy.c_", "numpy.r_"):
+            elts = n.slice.elts if isinstance(n.slice, ast.Tuple) else [n.slice]
+            fr = {self.expr(e, node) for e in elts} - {None}
+            return fr.pop() if len(fr) == 1 else None
+        if isinstance(n, (ast.ListComp, ast.GeneratorExp)):
+            return self.expr(n.elt, node)
         if isinstance(n, ast.Subscript):
             base = self.expr(n.value, node)
             if base is None and isinstance(n.value, ast.Subscript):
@@ -131,6 +159,9 @@ def check_frames(ctx):
         for c, msg in fe.problems:
             if not any(c is t[0] for t in fe.transforms):
                 ctx.violate("FRAME", f"{q}:normalize_point", (fi, c), msg)
+        for n_ in getattr(fe, "rounded", []):
+            ctx.violate("FRAME", f"{q}:rounded", (fi, n_), f"`{U(n_)[:60]}` rounds a cell coordinate down to an integer before it is converted: for a cluster that spans an odd number of cells the mid-point "
+                        "lies half a cell above the rounded value, so the located centre is biased by half a cell (up to a full cell from the true centre)")
 
 
 def check_cartesian_flow(ctx):
@@ -492,7 +523,7 @@ def check_merge(ctx):
     # (the per-axis index ranges may be built once before the loop over the periodic axes and copied inside it)
     scope = fi.node
     for n in ast.walk(scope):
-        if isinstance(n, ast.Call) and dotted(n.func).split(".")[-1] in ("arange", "range") and len(n.args) == 1:
+        if isinstance(n, ast.Call) and (dotted(n.func) or "").split(".")[-1] in ("arange", "range") and len(n.args) == 1:
             mm = _re.fullmatch(r"grid\.shape\[(\w+)\]", U(n.args[0]))
             if mm:
                 ranges.append((n, mm.group(1)))
